@@ -495,7 +495,8 @@ func Build(header []string, stat func(string)) *Stack {
 			cur = synced.WrapStore(cur, new(sync.RWMutex)) // one mutex per synced layer (sharing one would self-deadlock)
 			flus = append(flus, nil)
 		case strings.HasPrefix(l, "t"):
-			cur = table.New(cur, spare(Bytes(l[1:])))
+			prefixVariant++
+			cur = table.New(cur, prefixSlice(Bytes(l[1:]), prefixVariant))
 			flus = append(flus, nil)
 		default:
 			panic("bad layer " + l)
@@ -541,12 +542,34 @@ func (s *Stack) Close() {
 
 // spare returns b as a slice with unused capacity behind it (an append on it writes in place).
 func spare(b []byte) []byte {
+	return prefixSlice(b, 1)
+}
+
+var prefixVariant int
+
+// prefixSlice builds a table prefix the way callers do: 0 literal (exact capacity), 1 make+append with
+// spare capacity, 2 a sub-slice of a larger buffer (followed by other bytes), 3 a string conversion.
+// table.New keeps the slice it is given (no copy), so the harness never modifies it afterwards.
+func prefixSlice(b []byte, variant int) []byte {
 	if b == nil {
 		return nil
 	}
-	buf := make([]byte, len(b), len(b)+8)
-	copy(buf, b)
-	return buf
+	switch variant % 4 {
+	case 0:
+		return append([]byte{}, b...)[:len(b):len(b)]
+	case 1:
+		buf := make([]byte, 0, len(b)+1+prefixVariant%16)
+		return append(buf, b...)
+	case 2:
+		buf := make([]byte, len(b)+8)
+		copy(buf, b)
+		for i := len(b); i < len(buf); i++ {
+			buf[i] = 0xEE
+		}
+		return buf[:len(b)]
+	default:
+		return []byte(string(b))
+	}
 }
 
 // handle resolves a handle token; the store object is created on first use and kept for the rest
@@ -565,9 +588,13 @@ func (s *Stack) handle(tok string) kvdb.Store {
 		h = s.levels[d]
 	} else {
 		parent := s.handle(tok[:i])
-		prefix := spare(Bytes(tok[i+1:]))
-		if t, ok := parent.(*table.Table); ok && strings.Contains(tok[:i], "/") {
+		prefixVariant++
+		prefix := prefixSlice(Bytes(tok[i+1:]), prefixVariant)
+		s.stat("table_prefix_variant_" + strconv.Itoa(prefixVariant%4))
+		if t, ok := parent.(*table.Table); ok {
+			// a sub-table of a kept parent table: siblings are derived from the SAME parent object
 			h = t.NewTable(prefix)
+			s.stat("newtable_sibling")
 		} else {
 			h = table.New(parent, prefix)
 		}
